@@ -18,7 +18,7 @@ from engine.fakes_dist import World, nm, tok, qtok, same, conj, OWN
 
 import aioslsk.shares.utils as shares_utils
 from aioslsk.distributed import DistributedNetwork, DistributedPeer
-from aioslsk.network.connection import CloseReason, ConnectionState, DataConnection
+from aioslsk.network.connection import CloseReason, ConnectionState, DataConnection, ListeningConnection
 from aioslsk.network.network import Network
 from aioslsk.protocol.messages import (
     DistributedBranchLevel, DistributedBranchRoot, DistributedSearchRequest, DistributedServerSearchRequest, PeerSearchReply, ServerSearchRequest,
@@ -404,7 +404,8 @@ FUNCS = [DistributedNetwork._on_server_search_request, DistributedNetwork._on_di
          SearchManager._on_distributed_server_search_request, SearchManager._query_shares_and_reply,
          SearchManager._on_message_received, convert_items_to_file_data, convert_item_to_file_data,
          DataConnection.queue_message, DataConnection.queue_messages, DataConnection.send_message, DataConnection._send,
-         DataConnection.disconnect, Network.on_message_received, Network.on_state_changed]
+         DataConnection.disconnect, Network.on_message_received, Network.on_state_changed, Network.on_peer_accepted,
+         Network._finalize_peer_connection, ListeningConnection.accept, DataConnection.receive_message_object]
 
 META = {
     'level': 'other',
@@ -424,12 +425,14 @@ META = {
               'shares.utils.os.path.getsize -> harness table of symbolic sizes (both modes: there are no files)',
               'UploadInfoProvider -> constant stub', 'Network.send_peer_messages -> recorder (the reply would open a P connection)',
               'fault harness: FakeWriter.write / drain raise ConnectionResetError once, or drain waits until released (environment faults, kept in replay)',
+              'accept harness: the new child comes in through the real ListeningConnection.accept / Network.on_peer_accepted on a FakeReader that delivers the PeerInit bytes '
+              '(symbolic runs: decode_message_data of that connection returns the PeerInit object carrying the name token); its socket stalls, or an extra PeerInitializedEvent listener waits',
               'Network built with object.__new__ (see engine/fakes_dist.py)', 'StreamWriter -> recording FakeWriter; wait_closed() of a "closing" child does not return',
               'symbolic runs only: connection.encode_message_data -> identity; Settings.credentials.username -> own-name token',
               'logging disabled', 'asyncio loop -> engine.vloop.VLoop'],
     'data_variables': ['user name token of every child connection incl. a joining one (3 values; two child connections may belong to the same user)', 'ticket (uint32)', 'unknown (uint32)', 'distributed_code (0..255)', 'asker name token (3 values incl. own name)',
                        'query token (4 values)', 'file size of every result (uint64)'],
-    'discriminants': ['fault harness: which child socket fails (write / drain error) or stalls, which child closes meanwhile', 'carrier (3)', 'role of each of 4 peers (absent/candidate/child/parent/closing child/closed child)', 'sender of a distributed carrier',
+    'discriminants': ['accept harness: what keeps the accept callback suspended (child socket at the level / root frame, another listener)', 'fault harness: which child socket fails (write / drain error) or stalls, which child closes meanwhile', 'carrier (3)', 'role of each of 4 peers (absent/candidate/child/parent/closing child/closed child)', 'sender of a distributed carrier',
                       'number of visible / locked matches (0..2 each)', 'membership change between two requests (none/join/leave/closing)', 'session present'],
     'bounds': {'quick': {'peers': 4, 'shapes': 'representative shapes with 0..3 children', 'requests': 2},
                'thorough': {'peers': 4, 'shapes': 'every multiset of roles with at most one parent, in two list orders', 'requests': 2}},
